@@ -421,6 +421,81 @@ pub fn saturated_oracle(c: &SatCase) -> Verdict {
     Ok(CaseInfo::new(true).class(format!("{:?}", c.fault)).class(format!("failed_within_{}s", took.as_secs().min(10))))
 }
 
+// ------------------------------------------------------------------ requests submitted while the connection dies
+
+#[derive(Debug, Clone, Serialize, Deserialize)]
+pub struct RaceCase {
+    pub conns: u8,
+    pub rounds: u16,
+    pub rst: bool,
+}
+
+/// Callers keep submitting requests while every connection of the node is torn down, over and over:
+/// whatever instant a request is handed to a dying connection, its caller must get an answer or an error.
+/// The session has no client-side request timeout, so a caller the driver forgets waits for ever.
+pub fn submit_race_oracle(c: &RaceCase) -> Verdict {
+    let conns = (c.conns as usize).clamp(1, 16);
+    let spec = EnvSpec {
+        nodes: simple_nodes(1, None, false),
+        configure: Box::new(move |b| {
+            let profile = scylla::client::execution_profile::ExecutionProfile::builder().request_timeout(None).build();
+            b.pool_size(PoolSize::PerHost(NonZeroUsize::new(conns).unwrap())).default_execution_profile_handle(profile.into_handle())
+        }),
+        ..Default::default()
+    };
+    let env = build_env(&spec, hash_of(&format!("{c:?}"))).map_err(|m| bad("harness_env", m))?;
+    let session = Arc::clone(&env.session);
+    let mock = &env.mock;
+    let stop = Arc::new(AtomicBool::new(false));
+    let issued = Arc::new(AtomicU64::new(0));
+    let completed = Arc::new(AtomicU64::new(0));
+    const WAIT: Duration = Duration::from_secs(8);
+    let r = env.rt.block_on(async {
+        // wait for the pool to fill
+        wait_until(Duration::from_secs(10), || mock.live_conns(0).len() > conns).await;
+        let mut tasks = vec![];
+        for t in 0..conns.max(4) {
+            let (session, stop, issued, completed) = (Arc::clone(&session), Arc::clone(&stop), Arc::clone(&issued), Arc::clone(&completed));
+            tasks.push(tokio::spawn(async move {
+                let mut k = 0u64;
+                while !stop.load(Ordering::SeqCst) {
+                    k += 1;
+                    issued.fetch_add(1, Ordering::SeqCst);
+                    let _ = session.query_unpaged(format!("INSERT INTO ks.t (a) VALUES ({k}) /*t{t}*/"), ()).await;
+                    completed.fetch_add(1, Ordering::SeqCst);
+                    if k % 8 == 0 {
+                        tokio::task::yield_now().await;
+                    }
+                }
+            }));
+        }
+        let mut kills = 0usize;
+        for _ in 0..c.rounds {
+            // let the pool come back, then tear everything down under traffic
+            wait_until(Duration::from_secs(10), || mock.live_conns(0).len() > conns).await;
+            tokio::time::sleep(Duration::from_millis(2)).await;
+            kills += mock.live_conns(0).len();
+            mock.kill_node_conns(0, c.rst);
+            tokio::time::sleep(Duration::from_millis(1)).await;
+        }
+        stop.store(true, Ordering::SeqCst);
+        // every caller must come back: each task finishes its current request and sees `stop`
+        let deadline = Instant::now() + WAIT;
+        let mut stuck = 0usize;
+        for h in tasks {
+            let left = deadline.saturating_duration_since(Instant::now()).max(Duration::from_millis(1));
+            if tokio::time::timeout(left, h).await.is_err() {
+                stuck += 1;
+            }
+        }
+        Ok::<_, String>((kills, stuck))
+    });
+    let (kills, stuck) = r.map_err(|e| bad("harness_e2e", e))?;
+    let (i, d) = (issued.load(Ordering::SeqCst), completed.load(Ordering::SeqCst));
+    vassert!(stuck == 0, "caller_never_completes", "{stuck} callers were still waiting {WAIT:?} after the last connection teardown ({kills} connections torn down under traffic, {i} requests issued, {d} completed; no client-side timeout configured)");
+    Ok(CaseInfo::new(kills >= 2).class(if c.rst { "rst" } else { "fin" }).class(format!("conns{conns}")))
+}
+
 pub fn case() -> BoxedStrategy<Case> {
     (
         proptest::collection::vec((prop_oneof![3 => Just(ReqKind::Query), 2 => Just(ReqKind::Execute), 1 => Just(ReqKind::Batch)], any::<bool>()), 1..=8),
@@ -442,14 +517,16 @@ pub fn case() -> BoxedStrategy<Case> {
 }
 
 pub fn run(ctx: &Ctx, rep: &mut Report) {
-    rep.rule = "Cases: 1..8 requests in flight (query / execute / batch, idempotent or not) on a 2-node mock cluster with one connection per node; the node holding most of them answers j of them completely and then fails: FIN or RST after writing a prefix of the next response frame (offset anywhere in the frame, biased to the 9 header bytes, 0 = between frames), a garbage header, a header with version 0x03/0x85/0x04/0x00, a complete frame on a stream nobody waits for, or a silent stall with keep-alive 100 ms / 200 ms; the fault fires after all requests arrived or after the first 1..3. Oracle: every caller completes within 10 s; a caller that gets rows gets its own marker; requests whose response was completely written succeed; a non-idempotent request outstanding on the dead connection fails and no second frame for it appears anywhere; an idempotent one may succeed only through a second frame; a follow-up request succeeds and the node is reconnected within 10 s. saturated: the same with all 32 768 stream ids of a connection in flight (so that the driver's own keep-alive cannot obtain a stream id) under FIN / RST / silent stall. Non-trivial = >= 2 requests in flight on the dying connection and the cut strictly inside a frame.".into();
+    rep.rule = "Cases: 1..8 requests in flight (query / execute / batch, idempotent or not) on a 2-node mock cluster with one connection per node; the node holding most of them answers j of them completely and then fails: FIN or RST after writing a prefix of the next response frame (offset anywhere in the frame, biased to the 9 header bytes, 0 = between frames), a garbage header, a header with version 0x03/0x85/0x04/0x00, a complete frame on a stream nobody waits for, or a silent stall with keep-alive 100 ms / 200 ms; the fault fires after all requests arrived or after the first 1..3. Oracle: every caller completes within 10 s; a caller that gets rows gets its own marker; requests whose response was completely written succeed; a non-idempotent request outstanding on the dead connection fails and no second frame for it appears anywhere; an idempotent one may succeed only through a second frame; a follow-up request succeeds and the node is reconnected within 10 s. submit_race: 4..16 callers submit requests in a loop (session without client-side timeout) while all 1..8 connections of the node are torn down again and again (FIN / RST): every caller must come back. saturated: the same with all 32 768 stream ids of a connection in flight (so that the driver's own keep-alive cannot obtain a stream id) under FIN / RST / silent stall. Non-trivial = >= 2 requests in flight on the dying connection and the cut strictly inside a frame.".into();
     rep.trusted_base = vec!["mock cluster (vkit::mock, reference codec), real loopback TCP".into()];
     rep.assumptions = vec![
         "liveness is decided as completion within 10 s (normal: milliseconds; keep-alive case: < 1 s)".into(),
         "scheduling inside the driver's router task is whatever tokio does (sampled, not enumerated)".into(),
     ];
     if let Some((check, case_v)) = &ctx.replay {
-        if check == "saturated" {
+        if check == "submit_race" {
+            replay_case::<RaceCase, _>(rep, check, case_v, submit_race_oracle);
+        } else if check == "saturated" {
             replay_case::<SatCase, _>(rep, check, case_v, saturated_oracle);
         } else {
             replay_case::<Case, _>(rep, check, case_v, oracle);
@@ -466,4 +543,32 @@ pub fn run(ctx: &Ctx, rep: &mut Report) {
         }
     }
     finish_direct(rep, "saturated", st, fails, false);
+    // requests handed to connections at the instant they die (many environments in parallel: the window is narrow)
+    {
+        let rounds = ctx.tier.pick(250u16, 3_000);
+        let cases: Vec<RaceCase> = (0..2 * ncpu()).map(|i| RaceCase { conns: [1u8, 2, 4, 8][i % 4], rounds, rst: i % 2 == 0 }).collect();
+        let results: Vec<(Stats, Vec<(String, String, serde_json::Value)>)> = std::thread::scope(|sc| {
+            let hs: Vec<_> = cases
+                .iter()
+                .map(|c| {
+                    sc.spawn(move || {
+                        let mut st = Stats::default();
+                        let mut fails = vec![];
+                        eval_direct(&mut st, &mut fails, c, submit_race_oracle);
+                        (st, fails)
+                    })
+                })
+                .collect();
+            hs.into_iter().map(|h| h.join().unwrap()).collect()
+        });
+        let mut st = Stats::default();
+        let mut fails = vec![];
+        for (s2, f) in results {
+            st.merge(s2);
+            if fails.is_empty() {
+                fails.extend(f);
+            }
+        }
+        finish_direct(rep, "submit_race", st, fails, false);
+    }
 }
